@@ -163,6 +163,7 @@ class SparselyBin(Factory, Container):
         out = SparselyBin(self.binWidth, self.quantity, self.value, self.nanflow.zero(), self.origin)
         # without a value template (container reloaded from JSON) the declared content type must be carried over
         out.contentType = self.contentType
+        out._emptyBinsName = self._binsName()
         return out
 
     @inheritdoc(Container)
@@ -190,6 +191,7 @@ class SparselyBin(Factory, Container):
             )
             out.entries = self.entries + other.entries
             out.contentType = self.contentType
+            out._emptyBinsName = self._binsName()
             out.bins = {}
             for i, v in self.bins.items():
                 out.bins[i] = v + other.bins[i] if i in other.bins else v.copy()
@@ -458,8 +460,8 @@ class SparselyBin(Factory, Container):
         """List of sub-aggregators, to make it possible to walk the tree."""
         return [self.value, self.nanflow] + list(self.bins.values())
 
-    @inheritdoc(Container)
-    def toJsonFragment(self, suppressName):
+    def _binsName(self):
+        """Name of the quantity of the bins' sub-aggregators (kept separately while there is neither template nor bin)."""
         if isinstance(self.value, Container):
             if getattr(self.value, "quantity", None) is not None:
                 binsName = self.value.quantity.name
@@ -475,7 +477,12 @@ class SparselyBin(Factory, Container):
             else:
                 binsName = None
         else:
-            binsName = None
+            binsName = getattr(self, "_emptyBinsName", None)
+        return binsName
+
+    @inheritdoc(Container)
+    def toJsonFragment(self, suppressName):
+        binsName = self._binsName()
 
         if len(self.bins) > 0:
             bins_type = list(self.bins.values())[0].name
@@ -567,6 +574,7 @@ class SparselyBin(Factory, Container):
                 raise JsonFormatException(json, "SparselyBin.origin")
 
             out = SparselyBin.ed(binWidth, entries, json["bins:type"], bins, nanflow, origin)
+            out._emptyBinsName = binsName
             out.quantity.name = nameFromParent if name is None else name
             return out.specialize()
 
